@@ -7,6 +7,7 @@ package gmtls
 import (
 	"crypto"
 	"crypto/cipher"
+	"crypto/ecdsa"
 	"crypto/hmac"
 	"encoding/pem"
 	"errors"
@@ -397,7 +398,12 @@ func matchKeyCert(keyDERBlock *pem.Block, certDERBlock []byte) (crypto.PrivateKe
 	}
 
 	switch pub := x509Cert.PublicKey.(type) {
-	case *sm2.PublicKey:
+	case *ecdsa.PublicKey:
+		// the certificate parser returns SM2 keys as *ecdsa.PublicKey on the
+		// SM2 curve (never as *sm2.PublicKey)
+		if pub.Curve != sm2.P256Sm2() {
+			return nil, errors.New("tls: unknown public key algorithm")
+		}
 		priv, ok := privateKey.(*sm2.PrivateKey)
 		if !ok {
 			return nil, errors.New("tls: private key type does not match public key type")
